@@ -9,11 +9,15 @@ import (
 	"verifharness/gl/c14"
 	"verifharness/gl/c20"
 	"verifharness/lib/c12"
+	"verifharness/lib/c16"
+	"verifharness/sl/c05"
 )
 
 var cmds = map[string]func([]string) int{
+	"C05": c05.Main,
 	"C12": c12.Main,
 	"C14": c14.Main,
+	"C16": c16.Main,
 	"C20": c20.Main,
 }
 
